@@ -287,6 +287,8 @@ var hardCases = [][2]string{
 	{"M2 2L1 0L2 0zM1 2L2 1L2 0z", "M1 0L0 2L2 2zM2 2L0 1L1 0zM2 0L1 1L1 2z"},
 	{"M0 1L1 0L1 2zM1 0L2 1L1 1zM1 1L2 1L0 0z", "M1 2L0 2L1 0zM2 0L0 2L1 0zM1 2L2 1L1 0z"},
 	{"M1 1L2 0L0 0zM1 2L0 1L1 0z", "M0 2L0 0L1 0zM2 1L0 0L2 0zM1 0L0 0L0 2z"},
+	// (wave 13, reported by the agent that seeded C01-8: contours of 3 to 6 vertices on the 3x3 lattice)
+	{"M0 1L2 1L1 2zM0 1L1 2L1 0zM2 1L0 2L1 1z", "M2 2L0 0L0 2L0 1L1 2zM2 2L1 0L2 2L0 1L1 0zM2 0L1 1L1 0L0 0L0 1z"},
 }
 
 func hardCasesFamily() fw.Family {
@@ -331,6 +333,53 @@ func hardCasesFamily() fw.Family {
 	}
 	set, unset := withEps(1e-8)
 	return fw.Family{Name: "hard cases: operand pairs of 1-3 lattice triangles x 8 symmetries x both operand orders", N: int64(len(hardCases)) * 16,
+		Setup: set, Teardown: unset,
+		Check: func(i int64, r *fw.R) {
+			pd, qd := data(i)
+			checkPair(r, pd, qd, 1e-6, 1e-3, 1, false)
+		},
+		Desc: func(i int64) string {
+			pd, qd := data(i)
+			return fmt.Sprintf("P=%s Q=%s eps=1e-08", oracle.Fmt(pd), oracle.Fmt(qd))
+		}}
+}
+
+// staggeredFamily: two triangles whose bases lie on one line and overlap only partially, each
+// sticking out beyond the other (a < c < b < d), on lines y = const (and, transposed, x = const)
+// whose coordinate is not a power of two, so that interpolating along the line need not
+// return the coordinate itself; apexes on either side, both orientations of Q.
+func staggeredFamily(ys []float64) fw.Family {
+	var xs [][4]float64
+	for a := 0; a < 8; a++ {
+		for c := a + 1; c < 8; c++ {
+			for b := c + 1; b < 8; b++ {
+				for d := b + 1; d < 8; d++ {
+					xs = append(xs, [4]float64{float64(a), float64(b), float64(c), float64(d)})
+				}
+			}
+		}
+	}
+	apx := []float64{1, 4, 6}
+	apy := []float64{2, 3, -2}
+	rad := []int{len(xs), len(ys), 9, 9, 2, 2}
+	data := func(i int64) ([]float64, []float64) {
+		g := oracle.Digits(i, rad...)
+		x, y := xs[g[0]], ys[g[1]]
+		tr := func(p oracle.Pt) oracle.Pt {
+			if g[5] == 1 {
+				return oracle.Pt{X: p.Y, Y: p.X}
+			}
+			return p
+		}
+		P := []oracle.Pt{tr(oracle.Pt{X: x[0], Y: y}), tr(oracle.Pt{X: x[1], Y: y}), tr(oracle.Pt{X: apx[g[2]%3], Y: y + apy[g[2]/3]})}
+		Q := []oracle.Pt{tr(oracle.Pt{X: x[2], Y: y}), tr(oracle.Pt{X: x[3], Y: y}), tr(oracle.Pt{X: apx[g[3]%3], Y: y + apy[g[3]/3]})}
+		if g[4] == 1 {
+			Q[1], Q[2] = Q[2], Q[1]
+		}
+		return oracle.ClosedData(P), oracle.ClosedData(Q)
+	}
+	set, unset := withEps(1e-8)
+	return fw.Family{Name: fmt.Sprintf("triangles with partially overlapping collinear bases (a<c<b<d in 0..7) on the lines y (and x) in %v x 9x9 apexes x 2 orientations", ys), N: oracle.Prod(rad...),
 		Setup: set, Teardown: unset,
 		Check: func(i int64, r *fw.R) {
 			pd, qd := data(i)
@@ -493,7 +542,11 @@ func families(tier string) []fw.Family {
 	fewTris := tri3r[:24]
 	fs0 := hardCasesFamily()
 	var fs []fw.Family
-	fs = append(fs, fs0, curvedFamily(), entryFamily())
+	stagY := []float64{3, 5, 6, 7}
+	if tier == "thorough" {
+		stagY = []float64{1, 2, 3, 4, 5, 6, 7, 9, 11, 13}
+	}
+	fs = append(fs, fs0, curvedFamily(), entryFamily(), staggeredFamily(stagY))
 	fs = append(fs,
 		pairFamily("tri(L3)/rot (first 24) x shapes with holes lying 10 to the right", fewTris, apart, 1, oracle.Pt{}, 1e-8, 1e-6, false),
 		pairFamily("shapes with holes lying 10 to the right x tri(L3)/rot (first 24)", apart, fewTris, 1, oracle.Pt{}, 1e-8, 1e-6, false),
